@@ -764,3 +764,49 @@ m('c20_bulk_new_gt', ['C20'], 'jesse/store/state_candles.py',
   "        elif candles[0, 0] > arr[-1][0]:\n            arr.append_multiple(candles)", "        elif candles[0, 0] >= arr[-1][0]:\n            arr.append_multiple(candles)")
 m('c20_volume_copied_in_gap', ['C20'], 'jesse/modes/import_candles_mode/__init__.py',
   "                    'close': last_close,\n                    'volume': 0", "                    'close': last_close,\n                    'volume': candles[-1]['volume'] if len(candles) > 7 else 0")
+
+# ---- C17 -----------------------------------------------------------------------------------------
+m('c17_floor_to_round', ['C17'], 'jesse/helpers.py',
+  "    temp = 10 ** precision\n    return math.floor(num * temp) / temp", "    temp = 10 ** precision\n    return round(num * temp) / temp")
+m('c17_fee_factor_1x', ['C17'], 'jesse/utils.py',
+  "    if fee_rate != 0:\n        position_size *= 1 - fee_rate * 3\n", "    if fee_rate != 0:\n        position_size *= 1 - fee_rate * 0.5\n")
+m('c17_decimal_of_float', ['C17', 'C04'], 'jesse/utils.py',
+  "    return float(Decimal(str(float1)) + Decimal(str(float2)))", "    return float(Decimal(float1) + Decimal(float2))",
+  note='binary instead of decimal addition: result equals float1 + float2 rounded once - differs only rarely')
+m('c17_sum_plain_float', ['C17', 'C04'], 'jesse/utils.py',
+  "    return float(Decimal(str(float1)) - Decimal(str(float2)))", "    return float1 - float2")
+m('c17_round_decimals_np_round', ['C17'], 'jesse/helpers.py',
+  "        factor = 10 ** decimals\n        return np.floor(number * factor) / factor", "        factor = 10 ** decimals\n        return np.round(number * factor) / factor")
+m('c17_limit_stop_loss_max', ['C17'], 'jesse/utils.py', "    risk = min(risk, max_allowed_risk)", "    risk = max(risk, max_allowed_risk) if trade_type == 'short' else min(risk, max_allowed_risk)")
+m('c17_risk_to_size_no_cap', ['C17'], 'jesse/utils.py', "    return min(temp_size, capital_size)", "    return temp_size")
+m('c17_max_timeframe_45_before_1h', ['C17'], 'jesse/helpers.py',
+  "    if timeframes.HOUR_1 in timeframes_list:\n        return timeframes.HOUR_1\n    if timeframes.MINUTE_45 in timeframes_list:\n        return timeframes.MINUTE_45",
+  "    if timeframes.MINUTE_45 in timeframes_list:\n        return timeframes.MINUTE_45\n    if timeframes.HOUR_1 in timeframes_list:\n        return timeframes.HOUR_1")
+m('c17_anchor_same', ['C17'], 'jesse/utils.py', "        timeframes.HOUR_12: timeframes.DAY_1,\n    }\n\n    return dic[timeframe]", "        timeframes.HOUR_12: timeframes.HOUR_12,\n    }\n\n    return dic[timeframe]")
+
+# ---- C19 -----------------------------------------------------------------------------------------
+m('c19_range_120', ['C19'], 'jesse/helpers.py',
+  "                    convert_number(119, 40, h['max'], h['min'], ord(gene))\n                )\n            )",
+  "                    convert_number(120, 40, h['max'], h['min'], ord(gene))\n                )\n            )")
+m('c19_round_to_int', ['C19'], 'jesse/helpers.py',
+  """            decoded_gene = int(
+                round(
+                    convert_number(119, 40, h['max'], h['min'], ord(gene))
+                )
+            )""", """            decoded_gene = int(
+                (
+                    convert_number(119, 40, h['max'], h['min'], ord(gene))
+                )
+            )""", note='truncation: still in range and monotone; last letter still max -> only endpoint/monotone semantics; may be equivalent under the statement')
+m('c19_float_min_39', ['C19'], 'jesse/helpers.py',
+  "            decoded_gene = convert_number(119, 40, h['max'], h['min'], ord(gene))\n        else:",
+  "            decoded_gene = convert_number(119, 39, h['max'], h['min'], ord(gene))\n        else:")
+m('c19_defaults_overwrite_explicit', ['C19'], 'jesse/strategies/Strategy.py',
+  "        if self.hp is None and len(self.hyperparameters()) > 0:", "        if len(self.hyperparameters()) > 0:")
+m('c19_dna_over_explicit', ['C19'], 'jesse/modes/backtest_mode.py',
+  "        if len(r.strategy.dna()) > 0 and hyperparameters is None:", "        if len(r.strategy.dna()) > 0:")
+m('c19_leak_again', ['C19'], 'jesse/modes/backtest_mode.py',
+  "            route_hyperparameters = jh.dna_to_hp(\n                r.strategy.hyperparameters(), r.strategy.dna()\n            )",
+  "            route_hyperparameters = hyperparameters = jh.dna_to_hp(\n                r.strategy.hyperparameters(), r.strategy.dna()\n            )")
+m('c19_zip_shift', ['C19'], 'jesse/helpers.py',
+  "    for gene, h in zip(dna, strategy_hp):", "    for gene, h in zip(dna[1:] + dna[:1], strategy_hp):")
